@@ -402,6 +402,10 @@ func c06discriminants(c *Ctx, r *Result) {
 			continue
 		}
 		ok, detail := defaultArmIsError(c, fn, d.field)
+		if !ok && detail == "no dispatch recognised" {
+			r.ViolMissing(c, fn, "C06.5", d.fn+"#unknown-"+firstNonEmpty(strings.ToLower(d.field), "kind")+"-is-error", c.Pos(fn.Pos()), detail)
+			continue
+		}
 		r.Check(ok, "C06.5", d.fn+"#unknown-"+firstNonEmpty(strings.ToLower(d.field), "kind")+"-is-error", c.Pos(fn.Pos()), detail)
 	}
 	r.Floor("C06.5", 7)
